@@ -56,7 +56,9 @@ class _PipeStdin:
     reader that settles for "whatever is there" (read1) deterministically sees short chunks, while a
     blocking read() of n bytes gets its n bytes whatever the timing."""
 
-    def __init__(self, data, sizes, text=False):
+    def __init__(self, data, sizes, text=False, process=False):
+        """process=True: the feeder is a forked child process instead of a thread (the command line
+        waits until it is the only *thread* left, so the harness must not keep threads of its own)."""
         import array
         import fcntl
         import termios
@@ -97,8 +99,20 @@ class _PipeStdin:
             finally:
                 os.close(wfd)
 
-        self.thread = threading.Thread(target=feed, daemon=True)
-        self.thread.start()
+        self.thread = None
+        self.pid = None
+        if process:
+            pid = os.fork()
+            if pid == 0:  # child: feed, then leave without running any cleanup of the parent's state
+                try:
+                    feed()
+                finally:
+                    os._exit(0)
+            self.pid = pid
+            os.close(wfd)
+        else:
+            self.thread = threading.Thread(target=feed, daemon=True)
+            self.thread.start()
 
     def finish(self):
         self.stop = True
@@ -106,7 +120,19 @@ class _PipeStdin:
             self.buffer.close()
         except OSError:
             pass
-        self.thread.join(10)
+        if self.thread is not None:
+            self.thread.join(10)
+        if self.pid is not None:
+            import signal
+
+            try:
+                os.kill(self.pid, signal.SIGKILL)
+            except OSError:
+                pass
+            try:
+                os.waitpid(self.pid, 0)
+            except OSError:
+                pass
 
 
 def never(_frame):
